@@ -152,6 +152,7 @@ func TestC04(t *testing.T) {
 	s.upgradeRefusals()
 	s.listenerCases()
 	s.swarmCases()
+	s.socketSweep()
 	r.Require("upgrade_faults_fired", 300)
 	r.Require("upgrade_failed_one_side", 200)
 	r.Require("upgrade_completed_despite_fault", 1)
